@@ -366,3 +366,133 @@ Proof.
   rewrite grid_nverts by lia. rewrite grid_nfaces in * by lia. unfold gper in HE.
   destruct t; nia.
 Qed.
+
+(* ------------------------------------------------------------------ vertex umbrellas *)
+Require Import MV.C14.ProofsFan.
+
+Lemma grid_links nu nv t u v n p : 2 <= nu -> 2 <= nv ->
+  In (n, p) (links (unit_grid_faces nu nv t u) v) <->
+  exists i j, 0 <= i < nu - 1 /\ 0 <= j < nv - 1 /\
+    let a := gv nv i j in let b := gv nv i (j + 1) in let c := gv nv (i + 1) (j + 1) in let d := gv nv (i + 1) j in
+    if t then ((v = a /\ n = b /\ p = d) \/ (v = b /\ n = d /\ p = a) \/ (v = d /\ n = a /\ p = b))
+              \/ ((v = b /\ n = c /\ p = d) \/ (v = c /\ n = d /\ p = b) \/ (v = d /\ n = b /\ p = c))
+    else (v = a /\ n = b /\ p = d) \/ (v = b /\ n = c /\ p = a) \/ (v = c /\ n = d /\ p = b) \/ (v = d /\ n = a /\ p = c).
+Proof.
+  intros Hu Hv. rewrite links_In. split.
+  - intros [f [Hf H]]. apply grid_face_In in Hf as [i [j [Hi [Hj Hf]]]]; try lia. exists i, j. split; auto. split; auto.
+    cbv zeta. unfold gcell, gtri1, gtri2, gquad in Hf. destruct t; cbn [In] in Hf; split_or Hf; subst f.
+    + left. apply tri_corner. exact H.
+    + right. apply tri_corner. exact H.
+    + apply quad_corner. exact H.
+  - intros [i [j [Hi [Hj H]]]]. cbv zeta in H. destruct t.
+    + destruct H as [H|H].
+      * exists (gtri1 nv i j). split; [apply grid_face_In; try lia; exists i, j; split; auto; split; auto; left; reflexivity|].
+        apply tri_corner. exact H.
+      * exists (gtri2 nv i j). split; [apply grid_face_In; try lia; exists i, j; split; auto; split; auto; right; left; reflexivity|].
+        apply tri_corner. exact H.
+    + exists (gquad nv i j). split; [apply grid_face_In; try lia; exists i, j; split; auto; split; auto; left; reflexivity|].
+      apply quad_corner. exact H.
+Qed.
+
+(* the corners at vertex (i0, j0), cell by cell, in rotational order A (cell (i0,j0)), B (cell (i0,j0-1)),
+   C (cell (i0-1,j0-1)), D (cell (i0-1,j0)) *)
+Definition gLA (nv : Z) (t : bool) (i0 j0 : Z) : list (Z * Z) := [(gv nv i0 (j0 + 1), gv nv (i0 + 1) j0)].
+Definition gLB (nv : Z) (t : bool) (i0 j0 : Z) : list (Z * Z) :=
+  if t then [(gv nv (i0 + 1) j0, gv nv (i0 + 1) (j0 - 1)); (gv nv (i0 + 1) (j0 - 1), gv nv i0 (j0 - 1))]
+  else [(gv nv (i0 + 1) j0, gv nv i0 (j0 - 1))].
+Definition gLC (nv : Z) (t : bool) (i0 j0 : Z) : list (Z * Z) := [(gv nv i0 (j0 - 1), gv nv (i0 - 1) j0)].
+Definition gLD (nv : Z) (t : bool) (i0 j0 : Z) : list (Z * Z) :=
+  if t then [(gv nv (i0 - 1) j0, gv nv (i0 - 1) (j0 + 1)); (gv nv (i0 - 1) (j0 + 1), gv nv i0 (j0 + 1))]
+  else [(gv nv (i0 - 1) j0, gv nv i0 (j0 + 1))].
+Definition gEA nu nv t i0 j0 := if (i0 <? nu - 1) && (j0 <? nv - 1) then gLA nv t i0 j0 else [].
+Definition gEB nu nv t i0 j0 := if (i0 <? nu - 1) && (0 <? j0) then gLB nv t i0 j0 else [].
+Definition gEC (nu : Z) nv t i0 j0 := if (0 <? i0) && (0 <? j0) then gLC nv t i0 j0 else [].
+Definition gED (nu : Z) nv t i0 j0 := if (0 <? i0) && (j0 <? nv - 1) then gLD nv t i0 j0 else [].
+
+Lemma grid_links_cells nu nv t u i0 j0 x : 2 <= nu -> 2 <= nv -> 0 <= i0 < nu -> 0 <= j0 < nv ->
+  In x (links (unit_grid_faces nu nv t u) (gv nv i0 j0)) <->
+  In x (gEA nu nv t i0 j0 ++ gEB nu nv t i0 j0 ++ gEC nu nv t i0 j0 ++ gED nu nv t i0 j0).
+Proof.
+  intros Hu Hv Hi0 Hj0. destruct x as [n p]. rewrite grid_links by lia. rewrite !in_app_iff. split.
+  - intros [i [j [Hi [Hj H]]]]. cbv zeta in H. unfold gEA, gEB, gEC, gED, gLA, gLB, gLC, gLD.
+    destruct t; split_or H; destruct H as [E [-> ->]]; unfold gv in E; apply rowmajor_inj in E; try lia;
+      destruct E as [-> ->].
+    + left. replace ((i <? nu - 1) && (j <? nv - 1)) with true by lia. left. reflexivity.
+    + right. left. replace ((i <? nu - 1) && (0 <? j + 1)) with true by lia. right. left.
+      replace (j + 1 - 1) with j by lia. reflexivity.
+    + right. right. right. replace ((0 <? i + 1) && (j <? nv - 1)) with true by lia. left.
+      replace (i + 1 - 1) with i by lia. reflexivity.
+    + right. left. replace ((i <? nu - 1) && (0 <? j + 1)) with true by lia. left.
+      replace (j + 1 - 1) with j by lia. reflexivity.
+    + right. right. left. replace ((0 <? i + 1) && (0 <? j + 1)) with true by lia. left.
+      replace (j + 1 - 1) with j by lia. replace (i + 1 - 1) with i by lia. reflexivity.
+    + right. right. right. replace ((0 <? i + 1) && (j <? nv - 1)) with true by lia. right. left.
+      replace (i + 1 - 1) with i by lia. reflexivity.
+    + left. replace ((i <? nu - 1) && (j <? nv - 1)) with true by lia. left. reflexivity.
+    + right. left. replace ((i <? nu - 1) && (0 <? j + 1)) with true by lia. left.
+      replace (j + 1 - 1) with j by lia. reflexivity.
+    + right. right. left. replace ((0 <? i + 1) && (0 <? j + 1)) with true by lia. left.
+      replace (j + 1 - 1) with j by lia. replace (i + 1 - 1) with i by lia. reflexivity.
+    + right. right. right. replace ((0 <? i + 1) && (j <? nv - 1)) with true by lia. left.
+      replace (i + 1 - 1) with i by lia. reflexivity.
+  - unfold gEA, gEB, gEC, gED, gLA, gLB, gLC, gLD. intros H. cbv zeta.
+    destruct H as [H|[H|[H|H]]].
+    + destruct ((i0 <? nu - 1) && (j0 <? nv - 1)) eqn:C; [|destruct H]. destruct H as [H|[]]. pinj H. subst.
+      exists i0, j0. split; [lia|]. split; [lia|]. destruct t; [left; left; auto | left; auto].
+    + destruct ((i0 <? nu - 1) && (0 <? j0)) eqn:C; [|destruct H]. exists i0, (j0 - 1). split; [lia|]. split; [lia|].
+      replace (j0 - 1 + 1) with j0 by lia. destruct t; cbn [In] in H; split_or H; pinj H; subst.
+      * right. left. auto.
+      * left. right. left. auto.
+      * right. left. auto.
+    + destruct ((0 <? i0) && (0 <? j0)) eqn:C; [|destruct H]. destruct H as [H|[]]. pinj H. subst.
+      exists (i0 - 1), (j0 - 1). split; [lia|]. split; [lia|].
+      replace (j0 - 1 + 1) with j0 by lia. replace (i0 - 1 + 1) with i0 by lia.
+      destruct t; [right; right; left; auto | right; right; left; auto].
+    + destruct ((0 <? i0) && (j0 <? nv - 1)) eqn:C; [|destruct H]. exists (i0 - 1), j0. split; [lia|]. split; [lia|].
+      replace (i0 - 1 + 1) with i0 by lia. destruct t; cbn [In] in H; split_or H; pinj H; subst.
+      * left. right. right. auto.
+      * right. right. right. auto.
+      * right. right. right. auto.
+Qed.
+
+Definition grid_ring nu nv t i0 j0 : list (Z * Z) :=
+  if j0 =? 0 then gED nu nv t i0 j0 ++ gEA nu nv t i0 j0
+  else if i0 =? nu - 1 then gEC nu nv t i0 j0 ++ gED nu nv t i0 j0
+  else if j0 =? nv - 1 then gEB nu nv t i0 j0 ++ gEC nu nv t i0 j0
+  else if i0 =? 0 then gEA nu nv t i0 j0 ++ gEB nu nv t i0 j0
+  else gEA nu nv t i0 j0 ++ gEB nu nv t i0 j0 ++ gEC nu nv t i0 j0 ++ gED nu nv t i0 j0.
+
+Lemma grid_vertex_manifold nu nv t u : 2 <= nu -> 2 <= nv ->
+  vertex_manifold (unit_grid_nverts nu nv t u) (unit_grid_faces nu nv t u).
+Proof.
+  intros Hu Hv. rewrite grid_nverts by lia. intros v Hv'.
+  set (i0 := v / nv). set (j0 := v mod nv).
+  assert (Hij : v = gv nv i0 j0 /\ 0 <= j0 < nv /\ 0 <= i0 < nu).
+  { subst i0 j0. pose proof (Z.div_mod v nv ltac:(lia)). pose proof (Z.mod_pos_bound v nv ltac:(lia)). unfold gv.
+    split; [lia|]. split; [lia|]. split; [apply Z.div_pos; lia | apply Z.div_lt_upper_bound; lia]. }
+  destruct Hij as [Ev [Hj0 Hi0]]. clearbody i0 j0. subst v.
+  apply (one_fan_intro _ _ (grid_ring nu nv t i0 j0)); [apply grid_oriented_manifold; auto | | |].
+  - (* no corner twice *)
+    unfold grid_ring, gEA, gEB, gEC, gED, gLA, gLB, gLC, gLD, gv.
+    destruct (j0 =? 0) eqn:J0, (i0 =? nu - 1) eqn:I1, (j0 =? nv - 1) eqn:J1, (i0 =? 0) eqn:I0; try lia;
+      repeat match goal with |- context[if ?c then _ else _] => let E := fresh in destruct c eqn:E; try lia end;
+      cbn [app]; repeat constructor; cbn [In]; intros Hin; split_or Hin; pinj Hin; try lia; try rm_solve.
+  - intros x. rewrite grid_links_cells by lia. unfold grid_ring.
+    assert (EA0 : (i0 = nu - 1 \/ j0 = nv - 1) -> gEA nu nv t i0 j0 = []).
+    { intros H. unfold gEA. replace ((i0 <? nu - 1) && (j0 <? nv - 1)) with false by lia. reflexivity. }
+    assert (EB0 : (i0 = nu - 1 \/ j0 = 0) -> gEB nu nv t i0 j0 = []).
+    { intros H. unfold gEB. replace ((i0 <? nu - 1) && (0 <? j0)) with false by lia. reflexivity. }
+    assert (EC0 : (i0 = 0 \/ j0 = 0) -> gEC nu nv t i0 j0 = []).
+    { intros H. unfold gEC. replace ((0 <? i0) && (0 <? j0)) with false by lia. reflexivity. }
+    assert (ED0 : (i0 = 0 \/ j0 = nv - 1) -> gED nu nv t i0 j0 = []).
+    { intros H. unfold gED. replace ((0 <? i0) && (j0 <? nv - 1)) with false by lia. reflexivity. }
+    destruct (j0 =? 0) eqn:J0; [rewrite EB0, EC0 by lia; rewrite !in_app_iff; cbn [In]; tauto|].
+    destruct (i0 =? nu - 1) eqn:I1; [rewrite EA0, EB0 by lia; rewrite !in_app_iff; cbn [In]; tauto|].
+    destruct (j0 =? nv - 1) eqn:J1; [rewrite EA0, ED0 by lia; rewrite !in_app_iff; cbn [In]; tauto|].
+    destruct (i0 =? 0) eqn:I0; [rewrite EC0, ED0 by lia; rewrite !in_app_iff; cbn [In]; tauto|].
+    tauto.
+  - unfold grid_ring, gEA, gEB, gEC, gED, gLA, gLB, gLC, gLD.
+    destruct (j0 =? 0) eqn:J0, (i0 =? nu - 1) eqn:I1, (j0 =? nv - 1) eqn:J1, (i0 =? 0) eqn:I0; try lia;
+      repeat match goal with |- context[if ?c then _ else _] => let E := fresh in destruct c eqn:E; try lia end;
+      cbn [app chained fst snd]; repeat split; unfold gv; lia.
+Qed.
